@@ -385,6 +385,8 @@ def forward_contract(
 def _work(job: tuple) -> dict:
     if job[0] == 'long':
         return _work_long(job[1:])
+    if job[0] == 'stuck':
+        return _work_stuck(job[1:])
     n_phys, n, length, shard, nshards, sample, seed = job
     if length < 0:
         return _work_pam(job)
@@ -629,6 +631,53 @@ def _work_long(job: tuple) -> dict:
     return stats
 
 
+def stuck_case(s: int) -> tuple[int, frozenset, Circuit]:
+    """Three-qudit gates on a sparse, tree-like machine of 6-8 qudits: the
+    inputs on which the swap search runs into a local minimum and has to
+    take back the swaps it made (two-qudit gates alone need >= 13 qudits)."""
+    rng = random.Random(s)
+    n = rng.choice([6, 7, 7, 8])
+    perm = list(range(n))
+    rng.shuffle(perm)
+    edges = {tuple(sorted((perm[rng.randrange(v)], perm[v])))
+             for v in range(1, n)}
+    if rng.random() < 0.3:
+        a, b = rng.sample(range(n), 2)
+        edges.add(tuple(sorted((a, b))))
+    c = Circuit(n)
+    for _ in range(rng.randint(3, 8)):
+        if rng.random() < 0.6:
+            c.append_gate(ToffoliGate(), rng.sample(range(n), 3))
+        else:
+            c.append_gate(CNOTGate(), rng.sample(range(n), 2))
+    return n, frozenset(edges), c
+
+
+def _work_stuck(job: tuple) -> dict:
+    shard, nshards, amount, seed = job
+    key = 'GeneralizedSabreAlgorithm.forward_pass (local minima)'
+    st: dict[str, Any] = {'evaluated': 0, 'failures': [], 'samples': []}
+    for t in range(amount):
+        if t % nshards != shard:
+            continue
+        s = seed * 104729 + t
+        n, edges, pre = stuck_case(s)
+        st['evaluated'] += 1
+        try:
+            errs = forward_contract(pre, edges, n,
+                                    GeneralizedSabreAlgorithm())
+        except Exception as e:     # noqa: BLE001
+            errs = ['raised %s: %s' % (type(e).__name__, e)]
+        if errs and len(st['failures']) < 3:
+            st['failures'].append({
+                'function': key, 'kind': 'ensures', 'clause': errs[0][:300],
+                'scenario': '%d qudits, edges %s, %s (case seed %d)' % (
+                    n, sorted(edges), C.describe(pre), s),
+                'args': 'default options', 'observed': errs[0],
+                'case': {'what': 'stuck', 'n': n, 'seed': s}})
+    return {key: st}
+
+
 def replay(repo: str, rep: dict) -> dict | None:
     """Re-run one recorded case on the real passes."""
     fi = rep.get('failing_input') or {}
@@ -637,6 +686,16 @@ def replay(repo: str, rep: dict) -> dict | None:
         return None
     logging.getLogger('bqskit').setLevel(logging.ERROR)
     n = case['n']
+    if case['what'] == 'stuck':
+        n, edges, pre = stuck_case(case['seed'])
+        try:
+            errs = forward_contract(pre, edges, n,
+                                    GeneralizedSabreAlgorithm())
+        except Exception as e:     # noqa: BLE001
+            errs = ['raised %s: %s' % (type(e).__name__, e)]
+        return {'case': case, 'edges': sorted(edges),
+                'circuit': C.describe(pre),
+                'reproduced': bool(errs), 'errors': errs[:5]}
     if case['what'] == 'long':
         rng = random.Random(case['seed'])
         edges = rng.choice(connected_graphs(n))
@@ -710,6 +769,12 @@ def run(repo: str, tier: str, seed: int, jobs: int) -> dict:
                         n_long, n, len(FORWARD_OPTS), seed))
         for sh in range(jobs):
             work.append(('long', n, sh, jobs, n_long, seed))
+    n_stuck = 24000 if tier == 'quick' else 240000
+    desc.append('local minima: %d seeded circuits of 3-8 Toffoli / CNOT '
+                'gates on random tree-like machines of 6-8 qudits (seed %d)'
+                % (n_stuck, seed))
+    for sh in range(jobs):
+        work.append(('stuck', sh, jobs, n_stuck, seed))
     if jobs > 1:
         with mp.get_context('fork').Pool(jobs) as pool:
             parts = pool.map(_work, work, chunksize=1)
